@@ -45,6 +45,15 @@ unsafe impl GlobalAlloc for Counting {
         }
         p
     }
+    unsafe fn alloc_zeroed(&self, l: Layout) -> *mut u8 {
+        // keep the system allocator's lazily zeroed pages (a memset here would touch every page)
+        let p = unsafe { System.alloc_zeroed(l) };
+        if !p.is_null() {
+            let c = CURRENT.fetch_add(l.size(), Ordering::Relaxed) + l.size();
+            PEAK.fetch_max(c, Ordering::Relaxed);
+        }
+        p
+    }
     unsafe fn dealloc(&self, p: *mut u8, l: Layout) {
         unsafe { System.dealloc(p, l) };
         CURRENT.fetch_sub(l.size(), Ordering::Relaxed);
